@@ -304,6 +304,21 @@ def basis_args(g, tier):
     return res
 
 
+def small_rel(tol, *operands):
+    """residuals (exact rationals) below tol times the natural scale of the operands (products of their magnitudes, squared)"""
+    scale = 1.0
+    for xs in operands:
+        power = 2
+        if isinstance(xs, tuple): xs, power = xs
+        m = max([1.0] + [abs(float(x)) for x in xs]); scale *= m ** power
+    def chk(vals, line):
+        if vals is None: return 'error result ' + line[:100]
+        for i, v in enumerate(vals):
+            if abs(float(v)) > tol * scale: return 'residual %.3g exceeds %.3g at output %d' % (abs(float(v)), tol * scale, i)
+        return None
+    return chk
+
+
 def gen_C02(g, tier):
     n = 6 if tier == 'quick' else 60
     cs = []
@@ -319,7 +334,7 @@ def gen_C02(g, tier):
             cs.append(Case('st.convert %s %s' % (b, frs(s)), 'cmp', 'unit-' + tag))
             cs.append(Case('st.roundtrip %s %s' % (b, frs(s)), 'cmp', 'unit-' + tag))
             if exact: cs.append(Case('o.c02.round %s %s' % (b, frs(s)), 'orc', 'unit-' + tag))
-        for _ in range(n):
+        for it in range(n):
             s, sc, j, j2, q = g.rats(4), g.rats(8), g.rats(8), g.rats(8), g.rats(4)
             for op, args in (('st.convert', s), ('st.convertC', sc), ('st.natural', s), ('st.standard', q), ('st.coherencyQ', q),
                              ('st.ccoherency', j), ('st.roundtrip', s), ('st.roundtripC', sc), ('st.mueller', j)):
@@ -333,6 +348,11 @@ def gen_C02(g, tier):
             cs.append(Case('st.coherency %s %s' % (b, frs(hm)), 'cmp', 'random-' + tag))
             cs.append(Case('st.coherency %s %s' % (b, frs(j)), 'cmp', 'nonhermitian-' + tag))
             cs.append(Case('st.transformM %s %s %s' % (b, frs(g.smalls(16)), frs(j)), 'cmp', 'random-' + tag))
+            if not exact and it < 8:
+                # elliptical bases hold to rounding: same residuals (exact rationals of the double entries), with a tolerance
+                cs.append(Case('o.c02.round %s %s' % (b, frs(s)), 'orc', 'random-' + tag, check=small_rel(1e-12, s)))
+                cs.append(Case('o.c02.transform %s %s %s' % (b, frs(s), frs(j)), 'orc', 'random-' + tag, check=small_rel(1e-11, s, (j, 4))))
+                cs.append(Case('o.c02.compose %s %s %s' % (b, frs(j), frs(j2)), 'orc', 'random-' + tag, check=small_rel(1e-12, j, j2)))
             if exact:
                 cs.append(Case('o.c02.round %s %s' % (b, frs(s)), 'orc', 'random-' + tag))
                 cs.append(Case('o.c02.roundC %s %s' % (b, frs(sc)), 'orc', 'random-' + tag))
